@@ -83,6 +83,31 @@ def run(res, tier):
     n_total += n_ok + n_err
     res.samples.append({"chain_paths": len(paths), "ok": n_ok, "err": n_err})
 
+    # ---- CaCert::root: the depth measure starts at 0 (a trust anchor is 0 CAs away from itself), no parent ----------
+    rbody = E.prog.find("src/engine.rs", "CaCert", "root")
+    res.functions.append("routinator::engine::CaCert::root with CaCert::new inlined (MIR)")
+    n_root = 0
+    for i, p in enumerate(E.explore(rbody, max_visits=2, nomut=[r"."], inline=[r"CaCert::new$"])):
+        if p.kind != "return":
+            continue
+        arc = [e for e in p.events if e.kind == "call" and re.search(r"Arc::new$", e.name)]
+        if not arc:
+            continue
+        n_root += 1
+        cl = arc[-1].args[0].get((("f", i_len),))
+        zero = cl is not None and ((mir.is_z(cl) and must(E, p, cl == 0)) or (isinstance(cl, int) and cl == 0))
+        if not zero:
+            fn = mprop.write_cex(res, "root_chain_len_%d" % i, p, E, "the trust anchor's chain_len is %r, not 0" % (cl,))
+            res.violation("mir:root-depth-not-zero", "the trust anchor starts the depth count at %r instead of 0: CAs exactly max-ca-depth "
+                          "away from their trust anchor are refused (or one level too many is accepted)" % (cl,), fn)
+        par = arc[-1].args[0].get((("f", i_parent), "disc"))
+        if par is None or not must(E, p, par == 0):
+            fn = mprop.write_cex(res, "root_has_parent_%d" % i, p, E, "the trust anchor CaCert is created with a parent link")
+            res.violation("mir:root-has-parent", "the trust anchor has a parent link", fn)
+    if not n_root:
+        res.inconclusive.append("vacuity: CaCert::root creates no CaCert on the explored paths")
+    n_total += n_root
+
     # ---- check_loop: Err iff the issuing CA or one of its ancestors carries the key ---------------------
     # (whatever the shape: recursive helper or loop; the chain is laid out in memory, Arc is transparent)
     DEPTH = 3 if tier == "quick" else 6
